@@ -231,6 +231,51 @@ example : validJumpdest (mkFrame #[0x60, 0x04, 0x56, 0xfe, 0x5b] 0 0 0 0 #[]) 4 
     validJumpdest (mkFrame #[0x60, 0x04, 0x56, 0xfe, 0x5b] 0 0 0 0 #[]) 5 = false ∧
     validJumpdest (mkFrame #[0x60, 0x04, 0x56, 0xfe, 0x5b] 0 0 0 0 #[]) 3 = false := by decide
 
+/-! ## the JUMPDEST bit vector is never written out of range -/
+
+theorem pushWrites_bound (len p n : Nat) (hp : p ≤ len) (hn : n ≤ 32) :
+    ∀ i ∈ pushWrites p n, i < len / 8 + 1 + 4 := by
+  intro i hi
+  unfold pushWrites at hi
+  simp only [List.mem_append, List.mem_flatMap, List.mem_range, List.mem_cons, List.mem_map,
+    List.not_mem_nil, or_false] at hi
+  rcases hi with ⟨k, hk, hi⟩ | ⟨j, hj, hi⟩
+  · rcases hi with hi | hi <;> omega
+  · omega
+
+theorem bitmapWrites_go_bound (code : BA) :
+    ∀ (fuel pc : Nat), ∀ i ∈ bitmapWrites.go code fuel pc, i < bitvecLen code := by
+  intro fuel
+  induction fuel with
+  | zero => intro pc i hi; simp [bitmapWrites.go] at hi
+  | succ f ih =>
+    intro pc i hi
+    unfold bitmapWrites.go at hi
+    split at hi
+    · simp at hi
+    · rename_i hpc
+      simp only at hi
+      split at hi
+      · rename_i hop
+        rw [List.mem_append] at hi
+        rcases hi with hi | hi
+        · unfold bitvecLen
+          exact pushWrites_bound code.size (pc + 1) _ (by omega) (by omega) i hi
+        · exact ih _ i hi
+      · exact ih _ i hi
+
+/-- **bitmap_writes_in_range.** Every byte `codeBitmap` writes — for any code, in particular code whose
+    length is a multiple of 8 and whose last byte is a PUSH32 opcode with all of its data cut off —
+    lies inside the `len(code)/8 + 1 + 4` bytes it allocated (the allocation expression is pinned by
+    the T-gen fact `analysis.codeBitmap`): the lazy JUMPDEST analysis cannot index out of range. -/
+theorem bitmap_writes_in_range (code : BA) : ∀ i ∈ bitmapWrites code, i < bitvecLen code :=
+  bitmapWrites_go_bound code code.size 0
+
+/-- the bound is tight: 8 bytes ending in a truncated PUSH32 write byte index 5 of the 6 allocated
+    (one byte less — `(len+7)/8+4` — would be out of range) -/
+example : bitmapWrites #[0x5b, 0x5b, 0x5b, 0x5b, 0x5b, 0x5b, 0x5b, 0x7f] = [1, 2, 2, 3, 3, 4, 4, 5] ∧
+    bitvecLen #[0x5b, 0x5b, 0x5b, 0x5b, 0x5b, 0x5b, 0x5b, 0x7f] = 6 := by decide
+
 /-! ## faults are ordinary failed calls -/
 
 /-- the faults the property names (and the others the code can raise) -/
